@@ -1,19 +1,34 @@
 import Nice.Drv.Timer
 import Nice.Drv.Kern
+import Nice.Drv.PTcp
 import Nice.Drv.Prio
+import Nice.Drv.Role
+import Nice.Drv.Addr
+import Nice.Drv.Stun
+import Nice.Drv.Sock
 open Nice.Drv
 
 structure St where
+  ptcp : PTcpSt := {}
+  stun : StunSt := {}
   timer : Nice.Timer.Timer := { dlSec := 0, dlUsec := 0, delay := 0, retrans := 0, maxRetrans := 0 }
   prio : PrioSt := {}
+  addr : AddrSt := {}
+  sock : SockSt := {}
 
 def step (s : St) (line : String) : St × String :=
   match words line with
   | "timer" :: ws => let (t, o) := timerStep s.timer ws; ({ s with timer := t }, o)
   | ["reset"] => ({}, "reset")
+  | "ptcp" :: ws => let p := s.ptcp; let s := { s with ptcp := {} }; let (t, o) := ptcpStep p ws; ({ s with ptcp := t }, o)
+  | "stun" :: ws => let (t, o) := stunStep s.stun ws; ({ s with stun := t }, o)
+  | "sock" :: ws => let k := s.sock; let s := { s with sock := {} }; let (t, o) := sockStep k ws; ({ s with sock := t }, o)
   | "k" :: ws => (s, kernStep ws)
   | "prio" :: ws => (s, prioStep ws)
+  | "role" :: ws => (s, roleStep ws)
   | "plist" :: ws => let (p, o) := plistStep s.prio ws; ({ s with prio := p }, o)
+  | "addr" :: ws => (s, addrStep ws)
+  | "sdp" :: ws => let (t, o) := sdpStep s.addr ws; ({ s with addr := t }, o)
   | _ => (s, "bad-op")
 
 partial def loop (h : IO.FS.Stream) (out : IO.FS.Stream) (s : St) : IO Unit := do
